@@ -18,6 +18,7 @@ import (
 	"testing"
 	"time"
 
+	"github.com/plgd-dev/go-coap/v3/message"
 	"github.com/plgd-dev/go-coap/v3/message/codes"
 	"github.com/plgd-dev/go-coap/v3/message/pool"
 	limitparallelrequests "github.com/plgd-dev/go-coap/v3/net/client/limitParallelRequests"
@@ -381,6 +382,7 @@ func (d *driver) arrive(r int) {
 	req := pool.NewMessage(ctx)
 	req.SetCode(codes.GET)
 	req.MustSetPath(fmt.Sprintf("/p%d", d.path[r]))
+	decorate(req, r)
 	d.wg.Add(1)
 	go func() {
 		defer d.wg.Done()
@@ -765,6 +767,7 @@ func stress(rec *vr.Rec, seed int64) {
 					req := pool.NewMessage(ctx)
 					req.SetCode(codes.GET)
 					req.MustSetPath(fmt.Sprintf("/s%d", k.path))
+					decorate(req, int(id))
 					_, err := lim.Do(req)
 					returned.Add(1)
 					if err != nil {
@@ -805,5 +808,25 @@ func stress(rec *vr.Rec, seed int64) {
 		rec.EvalN(int64(64*per), fmt.Sprintf("stress-%d-%d-%d", total, ep, npaths))
 		rec.Count("stress_requests", int64(64*per))
 		rec.Count("stress_do_entries", entered.Load())
+	}
+}
+
+// decorate: requests for one path are requests for one endpoint whatever else they carry - validators, a host name, an
+// Observe value, a query. Every n-th request gets another combination of such options (numbered below and above Uri-Path).
+func decorate(req *pool.Message, n int) {
+	switch n % 7 {
+	case 1:
+		_ = req.SetETag([]byte{0xe7, byte(n), 0xa6})
+	case 2:
+		req.SetOptionBytes(message.IfMatch, []byte{byte(n), 1})
+	case 3:
+		req.SetOptionString(message.URIHost, fmt.Sprintf("host%d.example", n))
+	case 4:
+		req.SetObserve(1)
+	case 5:
+		req.AddQuery(fmt.Sprintf("q=%d", n))
+	case 6:
+		req.SetOptionUint32(message.URIPort, uint32(5000+n%100))
+		_ = req.SetETag([]byte{byte(n)})
 	}
 }
